@@ -30,7 +30,7 @@ PROPS = {
     },
     "C02": {
         "level": "exploration",
-        "stages": both("inproc") + [native("child")] + [miri("miri-inproc", scale=0.001)],
+        "stages": both("inproc") + [native("child"), native("net")] + [miri("miri-inproc", scale=0.001)],
     },
     "C03": {
         "level": "exploration",
